@@ -51,7 +51,11 @@ class World:
         self.cfg = cfg
         self.kind = cfg.get('kind', 'bdd')          # 'bdd' | 'autoref'
         self.nmax = cfg.get('nmax', 5)
-        self.U = tuple('abcdefghijkl'[:self.nmax])      # universe of names
+        from . import fix as _fix
+        # universe of names (some are concatenations of others)
+        self.U = tuple(_fix.NAME_OF[ch] for ch in 'abcdefghijkl'[:self.nmax])
+        if cfg.get('order'):
+            cfg['order'] = [_fix.NAME_OF.get(x, x) for x in cfg['order']]
         self.n = self.nmax
         self.F = tt.full(self.n)
         self.idx = {x: j for j, x in enumerate(self.U)}
@@ -88,6 +92,12 @@ class World:
         self.sem = cfg.get('semantic', 1)
         if levels_arg:
             self.order = list(init)
+            # a second manager built from the *same* dict object, then
+            # reordered: this one must not notice
+            twin = _mk_bdd_class()(levels_arg)
+            if len(init) >= 2:
+                twin.swap(0, 1)
+            twin.declare('zz_twin')
         elif ctor == 'copy_vars' and init:
             # variables copied from a manager that was reordered after
             # declaring (its dict order differs from its level order)
@@ -866,6 +876,16 @@ class World:
                 require(Den(self.b, self.U)(r) ==
                         tt.BINARY[op](tu, tv, self.n),
                         'fork.wrong_result_in_original', dict(op=op))
+            # structural changes in the copy must not reach the original
+            if len(m.vars) >= 2:
+                before = (dict(self.b.vars), dict(self.b._level_to_var))
+                m.swap(0, 1)
+                require((dict(self.b.vars), dict(self.b._level_to_var))
+                        == before, 'fork.swap_in_copy_changed_original')
+                inv.check_order(self.b)
+                dm = Den(m, self.U)
+                for e in self.held:
+                    require(dm(e.ref) == e.t, 'fork.copy_changed_by_swap')
             inv.check_structure(m)
             inv.check_cache(m, Den(m, self.U))
         finally:
@@ -1189,6 +1209,11 @@ class World:
         'let_compose_late_failure', 'max_nodes_full', 'copy_missing_var',
         'image_unknown_var_late',
     ]
+
+    def op_full(self, a, b):
+        """The `max_nodes` limit is hit in the middle of an operation
+        (a dedicated operation, so that histories reach it often)."""
+        self.op_bad(self.BAD_KINDS.index('max_nodes_full'), a, b)
 
     def op_bad(self, kind, a, b):
         """One rejected call.  Whatever it raises must not be the internal
@@ -1538,10 +1563,17 @@ class World:
         operation (RuntimeError 'full')."""
         old = self.b.max_nodes
         self.b.max_nodes = max(self.b._succ) + 1 + a % 3
+        # Known finding `max-nodes-reached-during-swap` (C17): the limit
+        # hit inside a level swap of a dynamic reordering leaves the
+        # manager half-swapped.  Excluded by construction: the limit is
+        # only lowered while reordering requests are off.
+        if self.reordering:
+            self.label('excluded.max_nodes_with_reordering_on')
         try:
-            x, y = self._u(a), self._u(b)
-            r = self.api.apply('xor', x, y)
-            r = self.api.apply('and', r, self._u(a + b))
+            with self.quiet():
+                x, y = self._u(a), self._u(b)
+                r = self.api.apply('xor', x, y)
+                r = self.api.apply('and', r, self._u(a + b))
             # stayed below the limit: nothing to judge
         finally:
             self.b.max_nodes = old
